@@ -56,6 +56,7 @@ class StartFailure(Exception):
 
 class History(object):
     def __init__(self, b, rundir, rng, part, hid):
+        self.peer_rules = {}      # (holder unique, rule id) -> unique name the rule names as sender
         self.b, self.rundir, self.rng, self.part, self.hid = b, rundir, rng, part, hid
         self.clock = client.Clock()
         self.steps = []
@@ -99,6 +100,24 @@ class History(object):
     def tok(self):
         self.ntok += 1
         return b"k%d" % self.ntok
+
+    def depart_model(self, u):
+        """model.disconnect plus what the bus does to OTHER connections' rules: a rule naming the departed unique name as
+        sender can never match again and is dropped (its slot is free again) - provided the departed connection held a
+        rule itself (the bus scans the rule pools only then; otherwise the stale rule stays and keeps its slot)."""
+        had_rules = self.model.rules_count(u) > 0
+        out = self.model.disconnect(u)
+        if had_rules:
+            for v, rids in self.model.rules.items():
+                gone = [rid for rid in rids if self.peer_rules.get((v, rid)) == u]
+                if gone:
+                    self.model.rules[v] = [rid for rid in rids if rid not in gone]
+                    self.part.count("rules:freed-by-departure-of-the-named-sender", len(gone))
+        else:
+            n = sum(1 for v, rids in self.model.rules.items() for rid in rids if self.peer_rules.get((v, rid)) == u)
+            if n:
+                self.part.count("rules:stale-but-kept(departed-sender-held-no-rule)", n)
+        return out
 
     def by_unique(self, u):
         for c in self.live:
@@ -184,7 +203,7 @@ class History(object):
     def forget(self, c):
         if c in self.live:
             self.live.remove(c)
-        self.model.disconnect(c.unique)
+        self.depart_model(c.unique)
         c.close()
 
     def observe_queue(self, name):
@@ -357,7 +376,7 @@ class History(object):
             len(self.model.pending.slots_of_callee(u))))
         self.part.count("op:disconnect")
         self.live.remove(c)
-        owed, _ = self.model.disconnect(u)
+        owed, _ = self.depart_model(u)
         c.close()
         self.after_departure(u, owed)
         self.part.sig("disconnect", len(owed) > 0)
@@ -442,11 +461,23 @@ class History(object):
 
     # -- match rules ---------------------------------------------------------------------------------------
     def rule_text(self, c, rid):
+        key = (c.unique, rid)
+        if key not in self.peer_rules:
+            # the last three rule ids of a connection name another connection's unique name as sender; the text of a rule id
+            # is fixed at its first use (None: no sender key)
+            others = [x for x in self.live if x is not c]
+            self.peer_rules[key] = self.rng.choice(others).unique if (rid >= NRIDS - 3 and others) else None
+        peer = self.peer_rules[key]
+        if peer is not None:
+            return b"type='signal',sender='%s',interface='com.example.L',member='R%d_%d'" % (peer, c.idx, rid)
         return b"type='signal',interface='com.example.L',member='R%d_%d'" % (c.idx, rid)
 
     def probe(self, c, rid):
         """-> number of copies of a signal matching rule (c, rid) that c receives, or None if nobody can send it"""
         senders = [x for x in self.live if x is not c]
+        peer = self.peer_rules.get((c.unique, rid))
+        if peer is not None:
+            senders = [x for x in senders if x.unique == peer]       # only the named sender can make this rule match
         if not senders:
             self.part.count("probe-skipped")
             return None
@@ -630,7 +661,7 @@ class History(object):
                 self.violation("message-size:oversize-sender-not-disconnected", "the sender of a %d byte message (max_message_size=%d) "
                                "was not disconnected" % (total, limit))
             self.live.remove(sender)
-            owed, _ = self.model.disconnect(u)
+            owed, _ = self.depart_model(u)
             sender.close()
             self.bystanders_ok("message-size")
             got = [r for r in target.inbox if r.msg.type == 4 and r.msg.known().get(3) == b"Big" and r.msg.known().get(7) == u
@@ -650,7 +681,7 @@ class History(object):
             self.violation("message-size:sender-within-limit-disconnected", "the sender of a %d byte message (max_message_size=%d) was "
                            "disconnected" % (total, limit))
             self.live.remove(sender)
-            owed, _ = self.model.disconnect(u)
+            owed, _ = self.depart_model(u)
             sender.close()
             self.after_departure(u, owed)
             return
@@ -766,6 +797,8 @@ class History(object):
                     if rid not in self.tried_rids.get(c.idx, ()):
                         continue
                     n = self.probe(c, rid)
+                    if n is None:
+                        continue         # nobody left who could send a matching signal (rule naming a departed sender)
                     want = 1 if rid in self.model.rules[c.unique] else 0
                     nheld += 1 if n else 0
                     if n != want:
